@@ -612,10 +612,11 @@ static void ZSTDMT_serialState_update(serialState_t* serialState,
         }
         if (serialState->params.fParams.checksumFlag && src.size > 0)
             XXH64_update(&serialState->xxhState, src.start, src.size);
+        /* Now it is the next jobs turn.
+         * A job that was skipped must not advance the turn : later jobs would never get theirs */
+        serialState->nextJobID++;
+        ZSTD_pthread_cond_broadcast(&serialState->cond);
     }
-    /* Now it is the next jobs turn */
-    serialState->nextJobID++;
-    ZSTD_pthread_cond_broadcast(&serialState->cond);
     ZSTD_pthread_mutex_unlock(&serialState->mutex);
 
     if (seqStore.size > 0) {
@@ -634,6 +635,10 @@ static void ZSTDMT_serialState_ensureFinished(serialState_t* serialState,
         serialState->nextJobID = jobID + 1;
         ZSTD_pthread_cond_broadcast(&serialState->cond);
 
+        /* the skipped job breaks the LDM history : forget it, otherwise the next job
+         * would publish a window that still references the data before the gap,
+         * which nothing ever releases (ZSTDMT_waitForLdmComplete() would wait forever) */
+        ZSTD_window_clear(&serialState->ldmState.window);
         ZSTD_PTHREAD_MUTEX_LOCK(&serialState->ldmWindowMutex);
         ZSTD_window_clear(&serialState->ldmWindow);
         ZSTD_pthread_cond_signal(&serialState->ldmWindowCond);
